@@ -63,6 +63,9 @@ def add_emode(rng, banks, coll, debt):
             banks[c]["etag"] = rng.choice([1, 2, 3])
     for d in debt:
         ents = []
+        if len(debt) > 1 and rng.random() < 0.3:
+            banks[d]["emode"] = ents          # a plain debt bank among e-mode ones: it must cancel the e-mode benefit wherever it sorts
+            continue
         for tag in sorted(rng.sample([1, 2, 3], rng.choice([1, 2, 3]))):
             wi = Fraction(rng.choice([70, 85, 90, 95]), 100)
             wm = min(Fraction(99, 100), wi + Fraction(rng.choice([0, 3]), 100))
@@ -397,13 +400,24 @@ def gen_liq_case(rng, dist, reduce_only_asset=False):
     pred = R.Pred(banks, orcs, na, now)
     ops = []
     feat = rng.choice(["plain", "plain", "plain", "over_liquidation", "too_severe", "liquidator_boundary", "healthy",
-                       "stale_asset_oracle", "extra_positions"])
+                       "stale_asset_oracle", "extra_positions", "liquidator_small_deposit"])
     dist[feat] = dist.get(feat, 0) + 1
     # lender = liquidator (0) funds the debt bank; thin liquidator (2) has little collateral
     amt = min(native(banks[lb], orcs[lb], Fraction(10 ** rng.choice([6, 8]))), 1 << 60)
     ops.append([1, 0, lb, amt, 0])
     pred.deposit(0, lb, amt)
     liqor = 0
+    if feat == "liquidator_small_deposit":
+        # the liquidator holds a deposit in the debt bank that is smaller than what it has to pay: its payment first drains
+        # the deposit and books the remainder as a debt (both legs of the wrapper in one call)
+        liqor = 2
+        cb = rng.choice(others) if others else ab
+        a2 = native(banks[cb], orcs[cb], Fraction(rng.choice([10 ** 5, 10 ** 6])))
+        ops.append([1, 2, cb, a2, 0])
+        pred.deposit(2, cb, a2)
+        small = rng.choice([1, 2, 1000, native(banks[lb], orcs[lb], Fraction(rng.choice([1, 5, 50])))])
+        ops.append([1, 2, lb, max(1, small), 0])
+        pred.deposit(2, lb, max(1, small))
     if feat == "liquidator_boundary":
         liqor = 2
         cb = rng.choice(others) if others else ab
